@@ -250,9 +250,16 @@ u_table(uint64_t idx, void *arg)
         /* the table has a past: its storage was damaged out of band and sanitised (the outcome of that call is
          * not this property's business - on tables with always-fail registers or areas that cannot be written it
          * stops with an error), then put right out of band; block writes must be judged as on any other table */
-        for (int i = 0; i < d.nregs; i++)
-            if (vh_chance(&rg, 1, 2))
-                rt_encode(d.reg[i].type, d.bigendian, vh_chance(&rg, 1, 2) ? ~0ull : vh_rand(&rg), rt_model_word(&inst, d.reg[i].addr));
+        for (int i = 0; i < d.nregs; i++) {
+            const struct rt_reg *r = &d.reg[i];
+            if (!vh_chance(&rg, 2, 3))
+                continue;
+            /* just outside the constraint where there is one, anything otherwise */
+            uint64_t bits = r->ck == REGV_TYPE_RANGE || r->ck == REGV_TYPE_MAX ? rt_bits(r->type, rt_neighbour(r->type, r->hi, +1))
+                            : r->ck == REGV_TYPE_MIN ? rt_bits(r->type, rt_neighbour(r->type, r->lo, -1))
+                            : vh_chance(&rg, 1, 2) ? ~0ull : vh_rand(&rg);
+            rt_encode(r->type, d.bigendian, bits, rt_model_word(&inst, r->addr));
+        }
         for (int a = 0; a < d.nareas; a++)
             memcpy(inst.store[a], inst.model[a], 2 * (size_t)d.area[a].size);
         RegisterAccess sa = register_sanitise(&inst.t);
